@@ -84,15 +84,16 @@ theorem insert_dup_rejected (now : Int) (c : Coll) (fs : Fields) (ix : Index) (p
       split at h
       · rename_i c3 h3
         have hhas' : c.hasKey key = false := by simpa using hhas
-        have he2 : expire now (c.setDoc key (patchDT (.doc fs))) =
-            .ok (c.setDoc key (patchDT (.doc fs))) := by
+        have he2 : expire now (c.storeDoc key (patchDT (.doc fs))) =
+            .ok (c.storeDoc key (patchDT (.doc fs))) := by
           apply expire_noTtl
+          show (c.setDoc key (patchDT (.doc fs))).ttlIndexes = []
           unfold Coll.setDoc; split <;> exact hnt
         rw [ensureUniques_eq] at h3
         have e3 := ensureFold_fix _ he2 h3
         obtain ⟨_, _, hck⟩ := ensureFold_ok _ h3
-        have hck' := hck ix (by rw [setDoc_indexes]; exact hix)
-        rw [e3, setDoc_docs_append _ hhas'] at hck'
+        have hck' := hck ix (by rw [storeDoc_indexes, setDoc_indexes]; exact hix)
+        rw [e3, storeDoc_docs, setDoc_docs_append _ hhas'] at hck'
         have hab : [p, (key, patchDT (.doc fs))].Sublist (c.docs ++ [(key, patchDT (.doc fs))]) := by
           have h1 : [p].Sublist c.docs := List.singleton_sublist.2 hp
           exact h1.append (List.Sublist.refl _)
@@ -325,24 +326,25 @@ theorem insert_dup_dupKey (now : Int) (c : Coll) (fs : Fields) (ix : Index) (p :
   | true => rfl
   | false =>
     simp only [Bool.false_eq_true, if_false]
-    have he2 : expire now (c.setDoc k (Val.doc ds)) = .ok (c.setDoc k (Val.doc ds)) := by
+    have he2 : expire now (c.storeDoc k (Val.doc ds)) = .ok (c.storeDoc k (Val.doc ds)) := by
       apply expire_noTtl
+      show (c.setDoc k (Val.doc ds)).ttlIndexes = []
       unfold Coll.setDoc; split <;> exact hnt
     have okn := okKeys_of_scalarKeys hsd
     have okp := okKeys_of_scalarKeys (hsc p hp)
     have hcdpf : pfOk ix (Val.doc ds) = true := by
       have := hcd; rw [covers_eq, Bool.and_eq_true] at this; exact this.2
-    have hstep : ensureStep now (Val.doc ds) (c.setDoc k (Val.doc ds)) ix =
+    have hstep : ensureStep now (Val.doc ds) (c.storeDoc k (Val.doc ds)) ix =
         .error .dupKey := by
       refine ensureStep_dup (a := p) (b := (k, Val.doc ds)) he2 hu hdf ?_ hsd hcd ?_ ?_ hcp hcd
         (by rw [← keyVals_eq, ← keyVals_eq]; exact heq) (keyEq_refl (kv_allScalar okn))
       · intro q hq
-        rw [setDoc_docs_append _ hhas] at hq
+        rw [storeDoc_docs, setDoc_docs_append _ hhas] at hq
         rcases List.mem_append.1 hq with h | h
         · exact hsc q h
         · rw [List.mem_singleton.1 h]; exact hsd
       · intro f hf q hq
-        rw [setDoc_docs_append _ hhas] at hq
+        rw [storeDoc_docs, setDoc_docs_append _ hhas] at hq
         rcases List.mem_append.1 hq with h | h
         · exact hpf f hf q h
         · rw [List.mem_singleton.1 h]
@@ -352,10 +354,11 @@ theorem insert_dup_dupKey (now : Int) (c : Coll) (fs : Fields) (ix : Index) (p :
           cases hfa : filterApplies f (Val.doc ds) with
           | error e => rw [hfa] at hcdpf; cases hcdpf
           | ok b => exact ⟨b, rfl⟩
-      · rw [setDoc_docs_append _ hhas]
+      · rw [storeDoc_docs, setDoc_docs_append _ hhas]
         exact (List.singleton_sublist.2 hp).append (List.Sublist.refl _)
-    have := ensureFold_dup (c.setDoc k (Val.doc ds)).indexes
-      (by rw [setDoc_indexes]; exact hone) (by rw [setDoc_indexes]; exact hix) hstep
+    have := ensureFold_dup (c.storeDoc k (Val.doc ds)).indexes
+      (by rw [storeDoc_indexes, setDoc_indexes]; exact hone)
+      (by rw [storeDoc_indexes, setDoc_indexes]; exact hix) hstep
     rw [ensureUniques_eq, this]
 
 end MongoModel.Proofs.C06Lemmas
